@@ -10,7 +10,7 @@ PLAN = {
 }
 DEADLINE = {'quick': 200, 'thorough': 3300}
 PROBES = ['solve-called-again-after-failure', 'input-only-load-then-full', 'optional-line-demanded', 'form-loaded-on-demand', 'foreign-input-read-without-participation']
-ORACLES = {'C04.model', 'C04.history', 'C04.unknown'}
+ORACLES = {'C04.output', 'C04.model', 'C04.history', 'C04.unknown'}
 ASSUMPTIONS = [
     'closure = required lines of every participating form instance + every line read + explicitly requested lines; a form instance '
     'participates iff it was requested or one of its lines was read; reading only *inputs* of a form does not make it participate',
@@ -24,7 +24,14 @@ RULE = ('successful solves of generated form programs (data-dependent branches d
 
 def evaluate(case, engine, acc=None):
     if engine == 'synth_cli':
-        run = simrun.execute_cli(case, {'prompt': case['prompt'], 'writeback': False, 'solution': False,
+        to_file = bool(case.get('cli_solution_file'))
+        if case.get('cli_prelude'):
+            # an earlier `habutax solve` of another return in the same process, reporting the same way
+            try:
+                simrun.execute_cli(case['cli_prelude'], {'prompt': True, 'writeback': False, 'solution': to_file})
+            except (core.RunTimeout, core.BudgetExceeded):
+                pass
+        run = simrun.execute_cli(case, {'prompt': case['prompt'], 'writeback': False, 'solution': to_file,
                                         'interrupt': [case['refuse_at'], 'ctrlc'] if case.get('refuse_at') is not None else None})
     elif engine == 'synth_resolve':
         run = simrun.execute(case, again=case.get('again', []))
@@ -37,6 +44,23 @@ def evaluate(case, engine, acc=None):
     fs = [f for f in simrun.judge(case, run, r1) if f['oracle'] in ORACLES]
     for f in fs:
         f['property'] = ID
+    if engine == 'synth_cli' and run.outcome == 'solved' and r1.verdict != 'abort':
+        # the solution as the user gets it (printed, or written with --solution) holds exactly the demanded lines as well
+        import configparser
+        try:
+            if case.get('cli_solution_file'):
+                cfg = configparser.ConfigParser()
+                cfg.read_string(run.solution_file or '')
+            else:
+                cfg = simrun.parse_cli_solution(run.stdout)
+            got = {f'{sec}.{k}' for sec in cfg.sections() if sec != 'habutax' for k in cfg[sec]}
+        except configparser.Error as e:
+            got = None
+            fs.append(simrun.F(ID, 'C04.output', 'unreadable', f'the solution handed to the user is not well-formed: {type(e).__name__}: {str(e)[:120]}'))
+        if got is not None and got != set(r1.demanded):
+            fs.append(simrun.F(ID, 'C04.output', 'closure-output',
+                               f'the solution handed to the user ({"--solution file" if case.get("cli_solution_file") else "stdout"}) differs '
+                               f'from the demand closure: extra {sorted(got - set(r1.demanded))[:6]} missing {sorted(set(r1.demanded) - got)[:6]}'))
     if acc is not None:
         base.synth_stats(case, run, r1, acc)
         if run.outcome == 'solved':
@@ -82,6 +106,14 @@ def run_one(engine, seed, acc, tier):
         if others and rng.chance(0.5):
             o = rng.pick(others)
             case['again'] = [f"{o['name']}:{rng.pick(['0', '1', '2'])}" if o['multi'] else o['name']]
+    if engine == 'synth_cli':
+        case['cli_solution_file'] = rng.chance(0.5)
+        if rng.chance(0.4):
+            pre = gen.gen_case(core.h64('c04prelude', seed), clean=True)
+            pre['prompt'] = True
+            pre['refuse_at'] = None
+            pre['field_names'] = []
+            case['cli_prelude'] = pre
     if engine == 'synth_cli' and len(case['world']['forms']) > 1 and len(case['requested']) == 1 and rng.chance(0.5):
         # several --form arguments
         for fs in case['world']['forms'][1:]:
